@@ -34,7 +34,7 @@ def design_and_drift(ck, evs, quick):
     (C') the outputs of the real rewriters are the models' outputs up to commutative argument order."""
     import os
     import tempfile
-    for layer, cap in (("QF", 64), ("WIDE", 1024)) + ((() if quick else (("QB", 64),))):
+    for layer, cap in (("QF", 64), ("WIDE", 1024), ("QB", 64)):
         fd, cfg = tempfile.mkstemp(suffix=".cfg", prefix="mcrewr_")
         with os.fdopen(fd, "w") as f:
             f.write("SPECIFICATION Spec\nCHECK_DEADLOCK FALSE\nCONSTANTS\n  WhichLayer = \"%s\"\n  Seed = 0\n  Cap = %d\n"
@@ -47,8 +47,8 @@ def design_and_drift(ck, evs, quick):
         if r.invariant_violated or r.error or r.rc != 0:
             ck.machinery_error("MC_Rewriters on layer %s: the rule model itself breaks %s %s\n%s"
                                % (layer, r.invariant_violated, r.error, r.out[-1500:]))
-        ck.part("design_check_MC_Rewriters_" + layer, formulas=r.distinct // 4, states=r.distinct, models=["NnfM", "AigM"])
-    sel = [e for e in evs if e["proc"] in ("nnf", "aig") and e["res"] == "ok"]
+        ck.part("design_check_MC_Rewriters_" + layer, formulas=r.distinct // 6, states=r.distinct, models=["NnfM", "AigM", "PrenexM"])
+    sel = [e for e in evs if e["proc"] in ("nnf", "aig", "prenex") and e["res"] == "ok"]
     verdicts, st = tlc.validate_events("Trace_Rewr", sel, constants={"Seed": 0, "Cap": 8})
     ck.add_tlc(st)
     byid = {e["id"]: e for e in sel}
